@@ -132,7 +132,14 @@ func amtName(a int64) string {
 	return fmt.Sprint(a)
 }
 
-func canonAddr(a string) string { return string(address.FormatAddrKey(a)) }
+// canonAddr is the harness's own notion of "one address": hex addresses compare case-insensitively
+// (deliberately not address.FormatAddrKey, which is part of what is being checked).
+func canonAddr(a string) string {
+	if strings.HasPrefix(a, "0x") && len(a) == 42 {
+		return strings.ToLower(a)
+	}
+	return a
+}
 
 // alias: two arguments that name one account with different spellings
 func (o *op) alias() bool {
@@ -451,10 +458,6 @@ func main() {
 	execE = address.ExecAddress(cfg.ExecName("ticket"))
 	execX = address.ExecAddress(cfg.ExecName("vfx"))
 	names = map[string]string{addrA: "A", addrB: "B", addrH: "H", addrHm: "H'", execE: "E", execX: "X"}
-	if canonAddr(addrH) != canonAddr(addrHm) || addrH == addrHm {
-		fmt.Println("HARNESS-ERROR H and H' are not two spellings of one storage key")
-		return
-	}
 	r.Rule = "BFS over all sequences of the real account.DB operations (Transfer, TransferToExec, TransferWithdraw, ExecFrozen, ExecActive, ExecTransfer, ExecTransferFrozen, ExecDeposit, ExecDepositFrozen, ExecWithdraw, Mint, Burn, ExecIssueCoins, GenesisInit, GenesisInitExec) on a fresh in-memory KV, replayed from the empty ledger; alphabet 'hex' = users {A, H=0x..lower, H'=same bytes mixed case} x executor E x amounts {1,2} with every ordered pair of spellings; alphabet 'lim' = users {A,B} x E x amounts {0,1,L-1,L} and grants {L-1,MAXBAL-1,MAXBAL,MAXINT64}; state = sorted dump of all stored account records; after every step every stored record is decoded and the clauses are evaluated. distinct = (operation kind, result) classes observed"
 	r.Assume = []string{
 		"total supply is Σ(balance+frozen) over the main accounts (executor addresses included): coins held under an executor are mirrored in the executor address's own balance and counted once there",
